@@ -182,7 +182,11 @@ func (b *CredentialBuilder) ConstructCredential(msg *IssueSignatureMessage, attr
 		if ms[i] != nil {
 			return nil, errors.New("attribute at random blind index should be nil before issuance")
 		}
-		ms[i] = new(big.Int).Add(msg.MIssuer[i], miUser) // mi = mi' + mi", for i \in randomblind
+		miIssuer := msg.MIssuer[i]
+		if miIssuer == nil {
+			return nil, errors.New("missing issuer share of random blind attribute")
+		}
+		ms[i] = new(big.Int).Add(miIssuer, miUser) // mi = mi' + mi", for i \in randomblind
 	}
 
 	if msg.NonRevocationWitness != nil {
